@@ -65,7 +65,8 @@ def shards(tier, seed):
     if tier == "quick":
         out = [{"kind": "perm", "lo": lo, "hi": lo + 76} for lo in range(0, 301, 76)]
         out += [{"kind": "perm", "lo": n, "hi": n + 1, "big": True} for n in (511, 512, 1000, 4097, 65535, 65536, 65537, 70001)]
-        out += [{"kind": "flip"}, {"kind": "flip_pairs", "lo": 0, "hi": 128}, {"kind": "flip_pairs", "lo": 128, "hi": 256}, {"kind": "swap_runs"}, {"kind": "threads", "rounds": 3}]
+        out += [{"kind": "flip"}, {"kind": "flip_pairs", "lo": 0, "hi": 128}, {"kind": "flip_pairs", "lo": 128, "hi": 256}, {"kind": "swap_runs"}, {"kind": "threads", "rounds": 3},
+                {"kind": "pipeline", "n": 1500, "part": 77, "_pyflags": ["-O"]}, {"kind": "flip", "_pyflags": ["-OO"]}, {"kind": "perm", "lo": 0, "hi": 40, "_pyflags": ["-O"]}]
         out += [{"kind": "swap_patterns", "maxlen": 10, "part": p, "parts": 4} for p in range(4)]
         out += [{"kind": "swap_random", "n": 5000, "part": p} for p in range(2)]
         out += [{"kind": "pipeline", "n": 2500, "part": p} for p in range(4)]
@@ -190,8 +191,8 @@ def run(shard, rec, tier, seed):
         def work(tid, rnd):
             r = random.Random("C10-thr-%d-%d" % (rnd, tid))
             out = []
-            for k in range(40):
-                L = 1500 + tid + 2 * r.randrange(0, 4) + (k % 2)
+            for k in range(40 if rnd < 100 else 6):
+                L = (1500 if rnd < 100 else 120) + tid + 2 * r.randrange(0, 4) + (k % 2)
                 x = [r.choice([r.randrange(256), 0, 3, 6, 9, 128, 255]) for _ in range(L)]
                 mult = (3, 7, 2, 255)[tid % 4]
                 for name, want in (("interleave", ref_interleave(x)), ("deinterleave", ref_deinterleave(x)), ("swap_multiples", ref_swap(x, mult)),
@@ -204,6 +205,11 @@ def run(shard, rec, tier, seed):
                         return out
             return out
         found, errors = thr.hammer(work, 4, shard["rounds"])
+        import os
+
+        f2, e2 = thr.hammer(work, 4, 1, inject=os.path.join(stage.REPO, "src", "eolib", "encrypt"), first_round=100)
+        found, errors = found + f2, errors + e2
+        rec.count("line-events-with-yield-injection", getattr(thr.hammer, "lines_with_injection", 0))
         for e in errors:
             rec.violation("raises", "a call from a worker thread raised: " + e, {"threads": 4})
         for mech, msg, case in found[:3]:
